@@ -326,6 +326,7 @@ func checkC18(c *Ctx, r *Report) {
 	}
 	r.check(okDie, "exit-codes", "die", "Fprintln(os.Stderr, err); os.Exit(code)", "die must print the error to os.Stderr and exit with the given code", c.pos(die.Pos()))
 
+	ruleDerivedDumpName(c, r, "derived-bfile")
 	r.rule("streams", 3, "the command writes to standard output directly (no buffered writer that could lose output on an error path); the library's default writers are os.Stdout and os.Stderr")
 	buffered := ""
 	for _, f := range c.Cmd.Syntax {
@@ -518,4 +519,87 @@ func funcNameOfDeclQ(c *Ctx, fd *ast.FuncDecl) string {
 		n = "cmd." + n
 	}
 	return n
+}
+
+// ruleDerivedDumpName: `--bdump` without a value writes FILE with its ".bcl" suffix replaced by ".bcb".
+func ruleDerivedDumpName(c *Ctx, r *Report, rule string) {
+	r.rule(rule, 1, "the BFILE name derived for a bare --bdump is FILE with exactly the suffix \".bcl\" removed and \".bcb\" appended: FILE[:len(FILE)-len(\".bcl\")] under strings.HasSuffix(FILE, \".bcl\"), strings.TrimSuffix(FILE, \".bcl\") or the result of strings.CutSuffix — not a character-set trim (TrimRight), a first-dot cut or a replace, which change other file names")
+	n := 0
+	for _, it := range c.sortedDecls() {
+		if it.obj.Pkg() == nil || it.obj.Pkg() != c.Cmd.Types || it.fd.Body == nil {
+			continue
+		}
+		fd := it.fd
+		ast.Inspect(fd.Body, func(x ast.Node) bool {
+			be, ok := x.(*ast.BinaryExpr)
+			if !ok || be.Op != token.ADD {
+				return true
+			}
+			ext, isK := c.strConst(be.Y)
+			if !isK || ext != ".bcb" {
+				return true
+			}
+			n++
+			key := fmt.Sprintf("%s/derived#%d", funcNameOfDecl(c, fd), n)
+			stem := c.stripConv(be.X)
+			// a local holding the stem
+			if id, isID := stem.(*ast.Ident); isID {
+				if def, k := c.singleDef(fd.Body, c.objOf(id)); k == 1 && def != nil {
+					stem = c.stripConv(def)
+				}
+			}
+			ok2, why := false, "the stem is "+types.ExprString(be.X)
+			switch e := stem.(type) {
+			case *ast.SliceExpr:
+				// f[:len(f)-len(".bcl")] / f[:len(f)-4], under HasSuffix(f, ".bcl")
+				if e.Low == nil && e.High != nil && e.Max == nil {
+					if hb, isB := c.stripConv(e.High).(*ast.BinaryExpr); isB && hb.Op == token.SUB {
+						lenOf := func(a ast.Expr) ast.Expr {
+							if call, isC := c.stripConv(a).(*ast.CallExpr); isC && c.calleeName(call) == "len" && len(call.Args) == 1 {
+								return call.Args[0]
+							}
+							return nil
+						}
+						cut := int64(-1)
+						if k, isC := c.intConst(hb.Y); isC {
+							cut = k
+						}
+						if la := lenOf(hb.X); la != nil && c.sameExpr(la, e.X) && cut == int64(len(".bcl")) {
+							for _, f := range splitFacts(c.factsAt(fd.Body, be)) {
+								if call, isC := stripParens(f.Cond).(*ast.CallExpr); isC && f.Pos && c.calleeName(call) == "strings.HasSuffix" && len(call.Args) == 2 && c.sameExpr(call.Args[0], e.X) {
+									if sfx, isS := c.strConst(call.Args[1]); isS && sfx == ".bcl" {
+										ok2 = true
+									}
+								}
+							}
+							if !ok2 {
+								why = "the last four bytes are cut off without the file name being known to end in \".bcl\""
+							}
+						} else {
+							why = "the slice does not cut exactly len(\".bcl\") bytes off the end of the file name"
+						}
+					}
+				}
+			case *ast.CallExpr:
+				switch c.calleeName(e) {
+				case "strings.TrimSuffix":
+					if len(e.Args) == 2 {
+						if sfx, isS := c.strConst(e.Args[1]); isS && sfx == ".bcl" {
+							ok2 = true
+						}
+					}
+				case "strings.CutSuffix":
+					if len(e.Args) == 2 {
+						if sfx, isS := c.strConst(e.Args[1]); isS && sfx == ".bcl" {
+							ok2 = true
+						}
+					}
+				default:
+					why = "the stem is computed by " + c.calleeName(e) + ", which does not remove exactly the suffix \".bcl\""
+				}
+			}
+			r.check(ok2, rule, key, "FILE minus the suffix .bcl, plus .bcb", "the derived BFILE name: "+why, c.pos(be.Pos()))
+			return true
+		})
+	}
 }
